@@ -40,6 +40,7 @@ def fourier_specs(draw, tier):
         qs=draw(st.lists(qpoint_strategy(), min_size=1, max_size=4)),
         ncomm=draw(st.integers(1, 4)),
         factor=draw(st.sampled_from(["default", 1.0, 521.47083])),
+        qlayout=draw(st.sampled_from(["list", "array", "column_view", "strided", "fortran", "transposed"])),
     )
     return base
 
@@ -55,6 +56,30 @@ def _pmat(spec, c):
 
         return get_primitive_matrix_by_centring(c["centring"] or "P")
     return pm
+
+
+def q_in_layout(qs, layout):
+    """The same q-points (n,3) presented in the array layouts a caller may legitimately use."""
+    qs = np.array(qs, dtype=float).reshape(-1, 3)
+    n = len(qs)
+    if layout == "list":
+        return qs.tolist()
+    if layout == "array":
+        return qs.copy()
+    if layout == "column_view":  # e.g. table[:, :3] of a wider table
+        t = np.full((n, 5), 7.25)
+        t[:, :3] = qs
+        return t[:, :3]
+    if layout == "strided":  # every second row of a longer list
+        t = np.full((2 * n, 3), -3.5)
+        t[::2] = qs
+        return t[::2]
+    if layout == "fortran":
+        return np.asfortranarray(qs)
+    if layout == "transposed":  # components stored as rows
+        comps = np.ascontiguousarray(qs.T)
+        return comps.T
+    raise ValueError(layout)
 
 
 def run_fourier(spec):
@@ -121,12 +146,14 @@ def run_fourier(spec):
             continue
         Dref = ifc.dynmat(q, masses)
         scale = max(np.abs(Dref).max(), 1e-12)
-        dm.run(q, lang="C")
+        lay = spec.get("qlayout", "array")
+        q1 = q_in_layout([q * 0 + 0.123, q], lay)[1]  # a single q, possibly a strided 1-D view
+        dm.run(q1, lang="C")
         Dc = dm.dynamical_matrix.copy()
-        dm.run(q, lang="Py")
+        dm.run(q1, lang="Py")
         Dp = dm.dynamical_matrix.copy()
-        Db = run_dynamical_matrix_solver_c(dm, np.array([q, q + 0.0]))[1]
-        ph.run_qpoints([q], with_dynamical_matrices=True)
+        Db = run_dynamical_matrix_solver_c(dm, q_in_layout([q * 0 + 0.321, q], lay))[1]
+        ph.run_qpoints(q_in_layout([q], lay), with_dynamical_matrices=True)
         qd = ph.get_qpoints_dict()
         Dq = qd["dynamical_matrices"][0]
         fr = qd["frequencies"][0]
@@ -145,7 +172,7 @@ def run_fourier(spec):
             return Out(ok=False, info={"err": e},
                        msg="frequencies at q=%s are not sign(e)sqrt|e|*factor of the Fourier-sum eigenvalues: %.3e (factor %r)"
                        % (q.tolist(), e, factor))
-        f2 = ph.get_frequencies(q)
+        f2 = ph.get_frequencies(q1)
         if relerr(np.sign(f2) * (f2 / factor) ** 2, ev, max(np.abs(ev).max(), 1e-12)) > 1e-9:
             return Out(ok=False, msg="get_frequencies differs from Fourier-sum eigenvalues at q=%s" % q.tolist())
         asserted += 1
@@ -153,7 +180,7 @@ def run_fourier(spec):
     cent = npa < len(c["cell"])
     special_q = any(np.abs(q).max() > 0.5 + 1e-9 or np.any(np.abs(np.abs(q) - 0.5) < 1e-9) for q, _ in all_q)
     nontriv = asserted > 0 and nshell >= 2 and crosses and (nondiag or cent or spec["compact"] or not spec["dense_svecs"] or special_q)
-    classes = [spec["regime"], "compact" if spec["compact"] else "full", "dense" if spec["dense_svecs"] else "sparse",
+    classes = ["qlayout:" + spec.get("qlayout", "array"), spec["regime"], "compact" if spec["compact"] else "full", "dense" if spec["dense_svecs"] else "sparse",
                "nondiag" if nondiag else "diag", "centred_prim" if cent else "p_prim", spec["crystal"]["kind"]]
     return Out(ok=True, nontrivial=nontriv, classes=classes, info={"err": worst, "natom": len(scell), "asserted_q": asserted})
 
